@@ -35,7 +35,7 @@ def run(ctx):
         json.dump({'histories': [list(h) for h in hl]}, f)
     res = ctx.gotest('e2e', 'TestVerif_C49', tags='verif e2e_testing', also=('net',), timeout=600 if ctx.quick else 1500)
     ctx.take_mismatches(res)
-    ctx.require_actions('Stop', 'Start', 'reload', 'lighthouse', 'hs2', 'routines:2', 'sockets:2', 'sockets:1')
+    ctx.require_actions('Stop', 'Start', 'reload', 'lighthouse', 'hs2', 'routines:2', 'sockets:2', 'sockets:1', 'punchburst:sent')
 
 
 META = {
